@@ -12,14 +12,14 @@ from .b09lib import LIB_REL, b09lib
 from .core import AnalysisError, Ctx, IdiomNotFound, rule
 from .peg import RegexConst, fold_module, peg
 from .pipeline import COMPILER_REL, pipeline
-from .pyast import call_name, is_self_attr, names_loaded, pyfacts, unparse
+from .pyast import ast_contains, call_name, is_self_attr, names_loaded, pyfacts, unparse
 from .relang import Lang
 from .rules_l import PROCBANK_REL, bank_patterns
 
 EVEN_QUOTES = r'[^"]*(?:"[^"]*"[^"]*)*$'
 
 
-@rule("L5", "BANK-ALGORITHM: dependency closure marks before recursing, result is sorted(closure - root) + [root], one placeholder substitution", ["C13"], floor=6, soft=True)
+@rule("L5", "BANK-ALGORITHM: dependency closure marks before recursing, result is sorted(closure - root) + [root], one placeholder substitution", ["C13", "C15"], floor=6, soft=True, default_props=["C13"])
 def l5(ctx: Ctx):
     py = pyfacts(ctx)
     ci = py.cls("ProcedureBank")
@@ -39,7 +39,7 @@ def l5(ctx: Ctx):
     loop = next((i for i, s in enumerate(body) if isinstance(s, ast.For)), None)
     if guard is None or mark is None or loop is None:
         raise IdiomNotFound("`if name in deps: return / deps.add(name) / for d in ...: recurse` not recognised")
-    ctx.ob("closure:guard-mark-recurse", guard < mark < loop, "" if guard < mark < loop else "the closure no longer marks a procedure before recursing into its callees: mutual recursion between library procedures never terminates / misses callees", file=PROCBANK_REL, line=rec.lineno)
+    ctx.ob("closure:guard-mark-recurse", guard < mark < loop, "" if guard < mark < loop else "the closure no longer marks a procedure before recursing into its callees: a procedure that (directly or indirectly) calls itself - e.g. a program named like a library procedure it uses - recurses until RecursionError", file=PROCBANK_REL, line=rec.lineno, props=["C13", "C15"], witness="ecb_cls.bas containing CLS")
     fl = body[loop]
     it = unparse(fl.iter)
     oki = re.fullmatch(rf"self\._name_to_dependencies\[{name}\]", it) is not None
@@ -62,7 +62,13 @@ def l5(ctx: Ctx):
     ctx.ob("result:replacement-text", okt, "" if okt else "the replacement is no longer `: STRING` / `: STRING[n]` depending on the requested size", file=PROCBANK_REL, line=get.lineno)
     # add_from_str: header starts a new procedure; every line is kept; dependencies recorded under the current name
     asrc = unparse(add)
-    ok4 = "PROCEDURE_START_PREFIX.match(line)" in asrc and "INVOKED_PROCEDURE_NAMES.findall(line)" in asrc
+    loops = [n for n in ast.walk(add) if isinstance(n, ast.For)]
+    ok4 = False
+    for lp in loops:
+        if isinstance(lp.target, ast.Name):
+            lv = lp.target.id
+            if ast_contains(lp, f"PROCEDURE_START_PREFIX.match({lv})") and ast_contains(lp, f"INVOKED_PROCEDURE_NAMES.findall({lv})"):
+                ok4 = True
     ctx.ob("load:patterns", ok4, "" if ok4 else "add_from_str no longer uses the header / RUN patterns line by line", file=PROCBANK_REL, line=add.lineno)
     # the text is cut into lines at line terminators only: any other character may occur inside a string literal
     loops = [n for n in ast.walk(add) if isinstance(n, ast.For)]
@@ -80,7 +86,7 @@ def l5(ctx: Ctx):
             split_ok = True
             break
     ctx.ob("load:line-split", split_ok, "" if split_ok else f"add_from_str cuts the text with `{split_txt}`, which also breaks at characters other than CR/LF (form feed, U+2028 ...) that a user's string literal may contain: the literal is cut in two, quotes become unbalanced and a RUN on that line is missed", file=PROCBANK_REL, line=add.lineno, witness="" if split_ok else '10 PLAY "CDE\x0cFG"')
-    ok5 = re.search(r"self\._name_to_dependencies\[name\]\.update\(invoked_names\)", asrc) is not None
+    ok5 = ast_contains(add, "self._name_to_dependencies[$n].update($x)") and ast_contains(add, "$x = INVOKED_PROCEDURE_NAMES.findall($l)") and ast_contains(add, "$n = $m[1]")
     ctx.ob("load:records-callees", ok5, "" if ok5 else "callees are not recorded under the procedure being read", file=PROCBANK_REL, line=add.lineno)
     # convert(): library first, then the program, then the closure of the program's own name
     P = pipeline(ctx)
@@ -111,7 +117,7 @@ def _sub_lang(sub) -> Lang:
     return Lang.from_nfa(nfa)
 
 
-@rule("L6", "PATTERN-GUARDS: RUN / placeholder patterns ignore text inside string literals; every placeholder is matched; accepted procedure names can be read back", ["C13", "C15", "C10"], floor=8)
+@rule("L6", "PATTERN-GUARDS: RUN / placeholder patterns ignore text inside string literals; every placeholder is matched; accepted procedure names can be read back", ["C13", "C15", "C10", "C11"], floor=8, default_props=["C13", "C15", "C10"])
 def l6(ctx: Ctx):
     pats = bank_patterns(ctx)
     L = b09lib(ctx)
@@ -120,14 +126,14 @@ def l6(ctx: Ctx):
         rc = pats[nm]
         sub = _lookahead_tail(rc.pattern, rc.flags)
         if sub is None:
-            ctx.ob(f"{nm}:quote-guard", False, f"`{nm}` no longer ends with the look-ahead that requires an even number of quotes up to the end of the line: text inside a user's string literal or DATA item (e.g. \"RUN ecb_play\") is taken for a call / a placeholder", file=PROCBANK_REL, line=1, witness='10 PRINT "RUN ecb_play"')
+            ctx.ob(f"{nm}:quote-guard", False, f"`{nm}` no longer ends with the look-ahead that requires an even number of quotes up to the end of the line: text inside a user's string literal or DATA item (e.g. \"RUN ecb_play\", \": STRING<<>>\") is taken for a call / a placeholder, so the size option and the dependency switch change the user's own text", file=PROCBANK_REL, line=1, witness='10 PRINT "RUN ecb_play"', props=["C13", "C11", "C10"] if nm == "STR_STORAGE_TAG" else ["C13"])
             continue
         try:
             got = _sub_lang(sub)
         except Exception as e:
             raise AnalysisError("L6", nm, f"cannot build the look-ahead language: {e}")
         ok, w = got.equals(ref)
-        ctx.ob(f"{nm}:quote-guard", ok, "" if ok else f"the trailing look-ahead of `{nm}` is not the even-quote guard (differs on {w!r})", file=PROCBANK_REL, line=1)
+        ctx.ob(f"{nm}:quote-guard", ok, "" if ok else f"the trailing look-ahead of `{nm}` is not the even-quote guard (differs on {w!r})", file=PROCBANK_REL, line=1, props=["C13", "C11", "C10"] if nm == "STR_STORAGE_TAG" else ["C13"])
     # every placeholder occurrence of the library is matched by STR_STORAGE_TAG
     tag = re.compile(pats["STR_STORAGE_TAG"].pattern, pats["STR_STORAGE_TAG"].flags)
     n_ph = 0
